@@ -54,7 +54,7 @@ UseForms == <<
 
 MFile == "export type X = { A: boolean };\nexport const A = 2;\nconst dflt = { A: 3 };\nexport default dflt;\n"
 
-Specials == <<
+HandSpecials == <<
   \* instantiation that never reaches a fixed point
   "type G<T> = { a: G<T[]> };\nparse.buildParsers<{ M: G<string> }>();\n",
   "type G<T> = { a: T; n?: G<G<T>> };\nparse.buildParsers<{ M: G<string> }>();\n",
@@ -89,6 +89,19 @@ Specials == <<
   "enum E { A = \"a\" }\nenum E { B = \"b\" }\ntype T = E;\nparse.buildParsers<{ T: T }>();\n",
   "const x = 1;\ntype T = typeof x;\nconst x = 2;\nparse.buildParsers<{ T: T }>();\n"
 >>
+
+\* Generic declarations whose body instantiates the declaration itself with arguments that grow at every level: one such member,
+\* or two members with (possibly different) growth forms - a bound on the instantiation depth must also bound the work when the
+\* body branches.  Each must be answered promptly by a diagnostic.
+Growth == <<"T[]", "[T]", "{ x: T }", "G<T>", "T | null">>
+Tail2 == "\nparse.buildParsers<{ M: G<string> }>();\n"
+Unbounded ==
+  [i \in 1..5 |-> "type G<T> = { a: G<" \o Growth[i] \o "> };" \o Tail2]
+  \o [i \in 1..25 |-> "type G<T> = { left: G<" \o Growth[((i - 1) \div 5) + 1] \o ">; right: G<" \o Growth[((i - 1) % 5) + 1] \o "> };" \o Tail2]
+  \o [i \in 1..25 |-> "interface G<T> { left: G<" \o Growth[((i - 1) \div 5) + 1] \o ">; right?: G<" \o Growth[((i - 1) % 5) + 1] \o "> }" \o Tail2]
+  \o [i \in 1..25 |-> "type G<T> = { v: T; kids: [G<" \o Growth[((i - 1) \div 5) + 1] \o ">, G<" \o Growth[((i - 1) % 5) + 1] \o ">] };" \o Tail2]
+  \o [i \in 1..5 |-> "type G<T> = { v: T; a?: G<" \o Growth[i] \o ">; b?: G<" \o Growth[i] \o ">; c?: G<" \o Growth[i] \o "> };" \o Tail2]
+Specials == HandSpecials \o Unbounded
 
 VARIABLES kind, ex, im, us, sp
 wvars == <<kind, ex, im, us, sp>>
